@@ -158,4 +158,5 @@ def run(ctx):
     c14.check_protocol_routing(ctx)
     from . import c11
     c11.check_scope_tables(ctx)
+    c11.check_error_carrier(ctx)
     return "other", EXPLANATION, {}
